@@ -61,12 +61,12 @@ def _tlc_error(out):
 
 
 def code_to_spec(rep: Report, env, conf, calls, what, module='PureTrace', hashseed=0, kind=None, tag='t',
-                 script='run_calls.py', extra=None):
+                 script='run_calls.py', extra=None, envs=None, per=500, chunk=20000):
     """(b)+(c): execute calls on the implementation and validate the trace."""
     if not calls:
         return None
-    trace = execute(env, calls, hashseed=hashseed, script=script, extra=extra, tag=tag)
-    v = validate(trace, conf, module=module)
+    trace = execute(env, calls, hashseed=hashseed, script=script, extra=extra, tag=tag, envs=envs, per=per)
+    v = validate(trace, conf, module=module, chunk=chunk)
     rep.add_validation(v, what)
     if v['fails']:
         recs = trace_lines(trace, [i for i, _ in v['fails']])
